@@ -56,13 +56,15 @@ PROPS["C09"] = dict(
         dict(name="parse", test="TestParse", quick=15000, thorough=600000, shards=8),
         dict(name="quote", test="TestQuote", quick=40000, thorough=1500000, shards=4),
         dict(name="agree", test="TestAgree", quick=30000, thorough=1000000, shards=4),
+        dict(name="numinfo-reuse", test="TestNumInfoReuse", quick=20000, thorough=500000, shards=2),
     ],
     technique="rapid generation (corpus mutation, token soup, deep nesting, hostile string pool) with invariant, round-trip and three-way differential oracles",
     level_text="exploration: every embedded corpus source in 6 parser modes, plus mutated/soup/deep inputs for totality and position sanity; quoting round trip over a hostile string pool x every Form option; three-way agreement of literal package, scanner and parser on near-valid spellings.",
     level_note="trusted: ast.Walk visiting order (children in source order); Go's utf8/strings; a Go stack overflow or escaping panic is caught by the journal and reported as a violation",
     rule="parse: input = corpus file with 0-4 byte/token mutations | token soup of 1-30 scanner tokens with hostile neighbours | one opener repeated 10..100000 times | random bytes; ParseFile/ParseExpr in 6 option sets must return (no panic), every error position and node range must lie in [0,len], Pos<=End, children inside parents, siblings ordered. Non-trivial = at least one syntax error and more than one node (error recovery exercised). "
          "quote: string from a pool of quotes/backslashes/#-runs/newlines/controls/non-BMP/invalid UTF-8 (bytes) x form {String,Label,Bytes} x {ASCIIOnly,GraphicOnly,OptionalHashes,TabIndent n,OptionalTabIndent n}: Unquote(Quote(s))==s, scanner yields one STRING token, ParseExpr one BasicLit with the same text. Non-trivial = contains quote, backslash, #, newline, control, non-BMP or invalid rune. "
-         "agree: near-valid number/string/identifier spellings (valid base + 0-2 single-character edits): literal.ParseNum/Unquote/ast.IsValidIdent accept <=> scanner yields one clean token of the class <=> ParseExpr yields that literal.",
+         "agree: near-valid number/string/identifier spellings (valid base + 0-2 single-character edits): literal.ParseNum/Unquote/ast.IsValidIdent accept <=> scanner yields one clean token of the class <=> ParseExpr yields that literal. "
+         "numinfo-reuse: sequences of 2-4 near-valid number spellings parsed with one reused literal.NumInfo must give what a fresh NumInfo gives (history independence); non-trivial = the sequence mixes rejected and accepted spellings.",
     assumptions=["comment groups are not required to lie inside their owner's range (doc comments precede the node by design)",
                  "nodes without an absolute position are counted, not checked",
                  "String/Label forms are documented as lossy for invalid UTF-8 and are only exercised with valid UTF-8; Bytes forms with arbitrary bytes"],
